@@ -493,13 +493,14 @@ def step (which : Prop3) (st : St) (opLine impl : String) : St × StepOut :=
       let (evs0, bad0, seen, reg) := acc
       if n.startsWith "monemit " then
         match parseMonEmit? n with
-        | some (_, e) =>
-          if seen.contains e then acc
+        | some (to, e) =>
+          -- every copy arrives at that monitor's supervision port (C03 counts arrivals)
+          if seen.contains e then (evs0 ++ [(to, Ev.supArrive e)], bad0, seen, reg)
           else
             let tg := sortNats ((monAll.filter (·.2 == e)).map (·.1))
             let regA := regOf reg e.who
             let reg' := regSet reg e.who (regA.filter fun m => !(tg.contains m && mdPairs.contains (e.who, m)))
-            (evs0 ++ [(e.who, Ev.monFan regA tg e)], bad0, seen ++ [e], reg')
+            (evs0 ++ [(e.who, Ev.monFan regA tg e), (to, Ev.supArrive e)], bad0, seen ++ [e], reg')
         | none => (evs0, true, seen, reg)
       else
         match noteEvents tgt op n with
